@@ -52,7 +52,22 @@ def _trace_and_judge(ctx, rep, op, n_prior, base, model_ok):
             os.utime(os.path.join(path, "data/orphan.parquet"), (1, 1))
         del t
     pre_files = set(reader.DirStore(path).list()) if os.path.isdir(path) else set()
-    lines = systrace.run_traced(op, path, arg, base)
+    env_extra = None
+    real_op = op
+    if op == "append@tmpfs":
+        # the process's temp directory on ANOTHER filesystem than the table (a tmpfs /tmp is common): staging a file there and moving
+        # it in is a copy, not a rename
+        if not os.path.isdir("/dev/shm") or os.stat("/dev/shm").st_dev == os.stat(base).st_dev:
+            return
+        env_extra, real_op = {"TMPDIR": "/dev/shm"}, "append"
+    lines = systrace.run_traced(real_op, path, arg, base, env_extra)
+    if op == "recreate":
+        cut = next((i for i, ln in enumerate(lines) if ".MARK" in ln), None)
+        if cut is None:
+            rep.notes.append("recreate: marker not found in the trace")
+            return
+        lines = lines[cut + 1:]
+        pre_files = set()
     evs, ids, meta = systrace.abstract(lines, path)
     rep.evaluations += 1
     rep.distribution[f"op:{op}"] += 1
@@ -276,8 +291,8 @@ def run(ctx, model_ok):
     base = scratch_dir("c16-")
     try:
         priors = [0, 1, 3] if not ctx.thorough else list(range(0, 9))
-        for op in ("create", "append", "append2", "delfiles", "expire", "delsnap", "gc"):
-            for n in (priors if op != "create" else [0]):
+        for op in ("create", "append", "append2", "delfiles", "expire", "delsnap", "gc", "recreate", "append@tmpfs"):
+            for n in (priors if op not in ("create", "recreate", "append@tmpfs") else ([0] if op == "create" else [1])):
                 _trace_and_judge(ctx, rep, op, n, base, model_ok)
         _fsync_faults(ctx, rep, base)
         _write_sizes(ctx, rep, base)
